@@ -158,6 +158,9 @@ func c08VariantByName(n string) c08Variant {
 //	auth                                                        -> built with the session keys by the harness
 type c08Ctx struct {
 	v13    bool // the target runs DTLS 1.3 record framing
+	open13 bool // the target offered DTLS 1.3 and the version is still open (dual-stack client before the server's
+	            // answer): a datagram has to split by the DTLS 1.3 rules, which admit the plain record types alert,
+	            // handshake and ACK only (RFC 9147 4; conn.go unpackDatagram since 680a26e)
 	cidLen int  // length of the target's own connection id
 	cid13  bool // DTLS 1.3 connection id negotiated and required
 	recv   int  // next handshake message_seq the target expects
@@ -170,6 +173,8 @@ func c08CtxOf(c *Conn) c08Ctx {
 		cidLen: len(common.LocalConnectionIDForInboundRecords()),
 		recv:   dtlsstate.HandshakeRecvSequence(c.state),
 	}
+	ctx.open13 = common.LocalVersion.Equal(protocol.Version{}) && c.handshakeConfig != nil &&
+		c.handshakeConfig.MaxVersion.Equal(protocol.Version1_3)
 	if st, ok := c.state.(*dtlsstate.State13); ok {
 		ctx.cid13 = st.CID.Negotiated
 	}
@@ -189,7 +194,7 @@ type c08Rec struct {
 // split a datagram into records; "" = ok, else the reason.  reasons: len | ct | cidbit | unihdr
 func c08Split(d []byte, ctx c08Ctx) ([]c08Rec, string) {
 	var out []c08Rec
-	use13 := ctx.v13 || (len(d) > 0 && d[0] >= 32 && d[0] <= 63)
+	use13 := ctx.v13 || ctx.open13 || (len(d) > 0 && d[0] >= 32 && d[0] <= 63)
 	for off := 0; off < len(d); {
 		b0 := d[off]
 		if use13 && b0 >= 32 && b0 <= 63 {
